@@ -100,5 +100,30 @@ CJSON_PUBLIC(int) cJSONUtils_ApplyPatchesCaseSensitive(cJSON * const object, con
 __CPROVER_requires(AP_PRE(patches))
 __CPROVER_ensures(AP_POST(object, patches, 1)) /*@C16*/
 __CPROVER_assigns(g_ap);
+
+/* ------------------------------------------------------------------ cJSONUtils_GeneratePatches[CaseSensitive]
+ * Only the frame (C20) is claimed for these two; the forwarding clause is tagged C17, which is not claimed (DESIGN 3), so a failure
+ * of it is recorded in the evidence of no check.  cJSON_CreateArray is bodiless in this translation unit: NULL or a fresh node. */
+struct vf_cp_log { const void *patches, *from, *to; cJSON_bool cs; size_t calls; } g_cp;
+cJSON *g_ca_ret;
+static void create_patches(cJSON * const patches, const unsigned char * const path, cJSON * const from, cJSON * const to, const cJSON_bool case_sensitive)
+__CPROVER_requires(path != NULL && path[0] == 0)
+__CPROVER_ensures(g_cp.patches == patches && g_cp.from == from && g_cp.to == to && g_cp.cs == case_sensitive && g_cp.calls == __CPROVER_old(g_cp.calls) + 1)
+__CPROVER_assigns(g_cp);
+CJSON_PUBLIC(cJSON *) cJSON_CreateArray(void)
+__CPROVER_requires(1)
+__CPROVER_ensures(RET == NULL || __CPROVER_is_fresh(RET, sizeof(cJSON)))
+__CPROVER_ensures(g_ca_ret == RET)
+__CPROVER_assigns(g_ca_ret);
+#define GP_POST(cs_) ((from == NULL || to == NULL) ? (RET == NULL && g_cp.calls == __CPROVER_old(g_cp.calls)) : \
+    (g_cp.calls == __CPROVER_old(g_cp.calls) + 1 && RET == g_ca_ret && g_cp.patches == RET && g_cp.from == from && g_cp.to == to && g_cp.cs == (cs_)))
+CJSON_PUBLIC(cJSON *) cJSONUtils_GeneratePatches(cJSON * const from, cJSON * const to)
+__CPROVER_requires(1)
+__CPROVER_ensures(GP_POST(0)) /*@C17*/
+__CPROVER_assigns(g_cp, g_ca_ret);
+CJSON_PUBLIC(cJSON *) cJSONUtils_GeneratePatchesCaseSensitive(cJSON * const from, cJSON * const to)
+__CPROVER_requires(1)
+__CPROVER_ensures(GP_POST(1)) /*@C17*/
+__CPROVER_assigns(g_cp, g_ca_ret);
 #endif /* VF_UTILS_WRAPPERS */
 #endif
